@@ -138,6 +138,28 @@ impl World {
     }
 }
 
+impl World {
+    /// translate the local-port fields of a message the endpoint is going to receive (canonical -> actual)
+    fn localise(&self, m: MultiplexMsg) -> MultiplexMsg {
+        use MultiplexMsg::*;
+        let t = |p: u32| -> u32 {
+            let c = p as u128;
+            if c >= BASE && c < BASE + 500_000 { self.to_actual(c) } else { p }
+        };
+        match m {
+            PortOpened { client_port, server_port } => PortOpened { client_port: t(client_port), server_port },
+            Rejected { client_port, no_ports } => Rejected { client_port: t(client_port), no_ports },
+            Data { port, first, last } => Data { port: t(port), first, last },
+            PortData { port, first, last, wait, ports, ids } => PortData { port: t(port), first, last, wait, ports, ids },
+            PortCredits { port, credits } => PortCredits { port: t(port), credits },
+            SendFinish { port } => SendFinish { port: t(port) },
+            ReceiveClose { port } => ReceiveClose { port: t(port) },
+            ReceiveFinish { port } => ReceiveFinish { port: t(port) },
+            m => m,
+        }
+    }
+}
+
 fn resp_code(r: &Result<(Sender, Receiver), ConnectError>) -> u128 {
     match r {
         Ok(_) => 1,
@@ -311,8 +333,7 @@ pub fn exec(inp: &[u128]) -> (Vec<u128>, String, String) {
                     }
                     (20, [paylen, nums @ ..]) => {
                         // local-port fields (>= BASE) are translated to the actual numbers
-                        let nums: Vec<u128> = nums.iter().map(|x| if *x >= BASE { w.to_actual(*x) as u128 } else { *x }).collect();
-                        if let Some(m) = nums_to_msg(&nums) {
+                        if let Some(m) = nums_to_msg(nums).map(|m| w.localise(m)) {
                             sigs.push(match &m {
                                 MultiplexMsg::OpenPort { .. } => "p:open",
                                 MultiplexMsg::PortOpened { .. } => "p:opened",
@@ -556,11 +577,19 @@ pub fn gen(r: &mut Rng, i: usize) -> Vec<Vec<u128>> {
                     4 => push_op(&mut v, 20, &[0, 11, local]),
                     5 => push_op(&mut v, 20, &[0, 12, local]),
                     6 => push_op(&mut v, 20, &[0, 9, local, *r.pick(&[0u128, 1, 4294967295])]),
-                    7 if !peer_clientfin => push_op(&mut v, 20, &[0, 4, rp, 1, 1, rp]),
+                    7 if !peer_clientfin => {
+                        push_op(&mut v, 20, &[0, 4, rp, 1, 1, rp]);
+                        if listener {
+                            queued.push(rp as u32);
+                        }
+                    }
                     8 => push_op(&mut v, 20, &[0, 8, local, 1, 1, 0, 0, 0]),
                     9 => push_op(&mut v, 20, &[0, 8, local, 1, 1, 0, 0, 2, rp, rp]),
                     10 => push_op(&mut v, 20, &[0, 1]),
-                    11 => push_op(&mut v, 20, &[0, 13]),
+                    11 => {
+                        push_op(&mut v, 20, &[0, 13]);
+                        peer_clientfin = true;
+                    }
                     12 => push_op(&mut v, 20, &[0, 15]),
                     _ => push_op(&mut v, 20, &[0, 2, 3, 0, 0, 0, 4, 4, 1]),
                 }
